@@ -145,6 +145,17 @@ def op_load(name, native=False):
     return dg([list(version), ts, magic, pypy, ss, sip, code_digest(version, magic, co)])
 
 
+def op_load_nocode(name):
+    """header only (get_code=False): the 7-tuple without a code object"""
+    saved = xload.PYTHON_MAGIC_INT
+    xload.PYTHON_MAGIC_INT = -1
+    try:
+        (version, ts, magic, co, pypy, ss, sip) = load_module(FILES[name], get_code=False)
+    finally:
+        xload.PYTHON_MAGIC_INT = saved
+    return dg([list(version), ts, magic, pypy, ss, sip, co is None])
+
+
 def op_dis(name, fmt):
     buf = io.StringIO()
     saved = xload.PYTHON_MAGIC_INT
@@ -239,6 +250,7 @@ OPS = {
     "marsh27a": lambda: op_marsh_body("f27"), "marsh27b": lambda: op_marsh_body("f27b"),
     "loaddropbox": lambda: op_load("fdropbox"),
     "marshcode27": lambda: op_marsh_code("f27"),
+    "load38nocode": lambda: op_load_nocode("f38"),
 }
 
 
